@@ -218,12 +218,13 @@ EmitArcs == \A a \in ArcCases : PrintT(<<"B", ToJson(ArcBehaviour(a))>>)
 (***************************************************************************)
 VARIABLE cfg
 (* thickness and top truncation are pairs <<at the start, at the end>> of every segment, varying linearly along it *)
-Thicks == {<<5, 5>>, <<10, 5>>, <<5, 10>>}
-Truncs == {<<0, 0>>, <<-5, -5>>, <<0, 3>>}
+Thicks == {<<5, 5>>, <<10, 5>>, <<5, 10>>, <<10, 10>>}
+Truncs == {<<0, 0>>, <<-5, -5>>, <<0, 3>>, <<7, 7>>}      \* <<7, 7>> of a thickness of 10: only the lower layer of the plate is the feature
 (* mid: the straight trench is given by three coordinates, the middle one exactly on the line (at w = 25) *)
 (* maxd: the feature's max depth in lattice units -- 150 (1500 km, below everything) or 18 (180 km: it cuts the body) *)
 Init == cfg \in {c \in [kind : Kinds, segs : {<<s>> : s \in Seg}, thick : Thicks, trunc : Truncs, mind : {0, 10}, dir : 1..3, side : Sides, mid : BOOLEAN, maxd : {150, 18}] :
-                   c.maxd = 18 => (c.thick = <<5, 5>> /\ c.trunc = <<0, 0>> /\ ~c.mid /\ c.dir = 1)}
+                   /\ (c.maxd = 18 => (c.thick = <<5, 5>> /\ c.trunc = <<0, 0>> /\ ~c.mid /\ c.dir = 1))
+                   /\ ((c.thick = <<10, 10>>) <=> (c.trunc = <<7, 7>>)) /\ (c.trunc = <<7, 7>> => (~c.mid /\ c.kind = "slab"))}
 CONSTANTS Reduced2,    \* TRUE: a second segment is only added to a reduced set of one-segment configurations (quick tier)
           Reduced3     \* TRUE: a third segment (hooks, S shapes, short middle segments) is only added where the truncation is zero and the trench runs along y
 Next == /\ Len(cfg.segs) < MaxSegments
